@@ -558,4 +558,280 @@ example : ∃ s', deleteClass wState ['B','A','S','E'] = .ok s' ∧
 /-- a refused operation (duplicate CreateClass in another case) is an error and changes nothing -/
 example : (step wState (.create { wSub with name := ['s','U','B'] })).2 = .err (.cimError 11) := by decide
 
+/-! ### several namespaces (`Repo`, `rstep`, `rrun`) -/
+
+/-- status codes of the namespace functions and of the MOF connection, re-extracted on every run -/
+theorem C12_namespace_status_codes_pinned :
+    raisesValidateNamespace = [3] ∧ raisesAddNamespace = [11, 11] ∧ raisesRemoveNamespace = [6, 3, 20] ∧
+    raisesMofCreateClass = [10, 4, 4, 4, 4] ∧ CIM_ERR_INVALID_NAMESPACE = 3 ∧
+    CIM_ERR_NAMESPACE_NOT_EMPTY = 20 := by
+  decide
+
+/-- **Every namespace is a repository of its own**: after ANY repository history (operations in any
+    namespaces and spellings, add_namespace / remove_namespace, accepted or refused) from the initial
+    repository of a faked connection, the content of every namespace is a state that a
+    single-namespace history reaches — so every `Reachable` theorem of this file (forest invariant,
+    exact enumerations, DeleteClass, EnumerateInstances, superclass chain, …) holds in every
+    namespace.  This discharges the one-namespace restriction of the model. -/
+theorem C12_namespace_states_reachable (d : Name) (ops : List ROp) :
+    ∀ e ∈ (rrun (initRepo d) ops).1.nss, Reachable e.2 :=
+  rrun_inv (P := AllReachable) (fun r op h => allReachable_rstep h op) ops _ (initRepo_inv d).2
+
+/-- … in particular the class store of every namespace is a forest -/
+theorem C12_namespace_forest (d : Name) (ops : List ROp) :
+    ∀ e ∈ (rrun (initRepo d) ops).1.nss, Forest e.2.classes :=
+  fun e he => reachable_forest (C12_namespace_states_reachable d ops e he)
+
+/-- namespace names stay pairwise different up to case (slashes are stripped on entry) -/
+theorem C12_namespace_names_unique (d : Name) (ops : List ROp) : NsUnique (rrun (initRepo d) ops).1 :=
+  rrun_inv (P := NsUnique) (fun r op h => nsUnique_rstep h op) ops _ (initRepo_inv d).1
+
+/-- **Frame property**: an operation addressed to namespace `ns` (any spelling) changes at most the
+    namespace it names: the namespace stored under key `k` afterwards holds `step s op` if `ns`
+    spells `k`, and exactly what it held before otherwise. -/
+theorem C12_namespace_frame (d : Name) (ops : List ROp) (k : Name) (s : State)
+    (hk : (k, s) ∈ (rrun (initRepo d) ops).1.nss) (ns : Name) (op : Op) :
+    (k, if ieq k (stripSlash ns) then (step s op).1 else s) ∈
+      (rstep (rrun (initRepo d) ops).1 (.inNs ns op)).1.nss :=
+  rstep_inNs_entry (C12_namespace_names_unique d ops) hk ns op
+
+/-- **Independence of namespaces**: between namespace creations/removals, the final content of a
+    namespace is the single-namespace run of exactly the operations addressed to it — operations on
+    other namespaces are invisible. -/
+theorem C12_namespace_independence (r : Repo) (hu : NsUnique r) (ops : List ROp)
+    (hall : ∀ o ∈ ops, ∃ ns op, o = .inNs ns op) (k : Name) (s : State) (hk : (k, s) ∈ r.nss) :
+    (k, (run s (projectOps k ops)).1) ∈ (rrun r ops).1.nss :=
+  rrun_projection ops r hu hall k s hk
+
+/-- an operation on a namespace that does not exist is refused (CIM_ERR_INVALID_NAMESPACE for the
+    provider operations and add_cimobjects) and changes nothing -/
+theorem C12_missing_namespace_refused (r : Repo) (ns : Name) (op : Op) (h : findNs r ns = none) :
+    rstep r (.inNs ns op) = (r, .err (missingNsError op)) := by
+  simp [rstep, h]
+
+/-- add_namespace: refused with ALREADY_EXISTS iff a namespace of that name (up to case and
+    slashes) exists, otherwise appends one empty namespace and touches nothing else -/
+theorem C12_add_namespace_exact (r : Repo) (ns : Name) :
+    (hasNs r ns = true → rstep r (.addNs ns) = (r, .err (.cimError CIM_ERR_ALREADY_EXISTS))) ∧
+    (hasNs r ns = false → rstep r (.addNs ns) = ({ nss := r.nss ++ [(stripSlash ns, {})] }, .done)) := by
+  constructor <;> intro h <;> simp [rstep, h]
+
+/-- remove_namespace succeeds only for an existing, completely empty namespace and removes exactly
+    it; NOT_FOUND / NAMESPACE_NOT_EMPTY otherwise, with the repository unchanged -/
+theorem C12_remove_namespace_exact (r : Repo) (ns : Name) :
+    (findNs r ns = none → rstep r (.removeNs ns) = (r, .err (.cimError CIM_ERR_NOT_FOUND))) ∧
+    (∀ s, findNs r ns = some s → isEmptyState s = false →
+        rstep r (.removeNs ns) = (r, .err (.cimError CIM_ERR_NAMESPACE_NOT_EMPTY))) ∧
+    (∀ s, findNs r ns = some s → isEmptyState s = true →
+        rstep r (.removeNs ns) =
+          ({ nss := r.nss.filter (fun e => !(ieq e.1 (stripSlash ns))) }, .done)) := by
+  refine ⟨fun h => by simp [rstep, h], fun s h he => by simp [rstep, h, he],
+    fun s h he => by simp [rstep, h, he]⟩
+
+/-- a concrete repository history: a second namespace (spelled three ways), the same class name in
+    both, a duplicate namespace, a missing namespace, MOF-style creation, `is_subclass`, an empty
+    namespace added and removed, removal of a non-empty one refused -/
+def wPlain : Cls :=
+  { name := ['B','a','s','e'], super := none, quals := [], props := [wBaseQ], meths := [] }
+def wRepoHistory : List ROp :=
+  [.addNs ['/','N','2','/'], .inNs ['n','2'] (.create wPlain), .addNs ['N','2'],
+   .inNs ['a'] (.mofCreate wPlain), .inNs ['n','o'] (.create wPlain),
+   .inNs ['A','/'] (.mofCreate { wPlain with name := ['S'], super := some ['B','A','S','E'], props := [] }),
+   .inNs ['/','a'] (.isSub ['s'] ['b','a','s','e']), .inNs ['N','2','/'] (.isSub ['s'] ['b','a','s','e']),
+   .addNs ['t'], .removeNs ['T'], .removeNs ['n','2']]
+
+example : (rrun (initRepo ['a']) wRepoHistory).2 =
+    [.done, .done, .err (.cimError 11), .done, .err (.cimError 3), .done, .flag true, .err .keyError,
+     .done, .done, .err (.cimError 20)] := by decide
+example : (rrun (initRepo ['a']) wRepoHistory).1.nss.map (fun e => (e.1, e.2.classes.map (·.name))) =
+    [(['a'], [['B','a','s','e'], ['S']]), (['N','2'], [['B','a','s','e']])] := by decide
+example : ∀ o ∈ [ROp.inNs ['n','2'] (.create wPlain), .inNs ['a'] (.mofCreate wPlain)],
+    ∃ ns op, o = ROp.inNs ns op := by
+  intro o ho; simp at ho; rcases ho with rfl | rfl <;> exact ⟨_, _, rfl⟩
+
+/-! ### the MOF compiler's connection and `is_subclass` -/
+
+/-- **Classes built through the MOF compiler's connection are the classes CreateClass builds**:
+    `_MockMOFWBEMConnection.CreateClass` accepts exactly the declarations CreateClass accepts and
+    leaves exactly the same repository (its own superclass / dependency pre-checks only change which
+    error is reported first). -/
+theorem C12_mof_create_agrees (s s' : State) (c : Cls) :
+    mofCreateClass s c = .ok s' ↔ createClass s c = .ok s' :=
+  ⟨mofCreateClass_ok, createClass_mof⟩
+
+example : ∃ s', mofCreateClass wState { wPlain with name := ['N','e','w'] } = .ok s' ∧
+    createClass wState { wPlain with name := ['N','e','w'] } = .ok s' :=
+  ⟨okOr (createClass wState { wPlain with name := ['N','e','w'] }) wState, by decide, by decide⟩
+
+/-- **`is_subclass` is exact** on every reachable store: for a stored class it terminates, answers
+    True iff the class is named like `sup` or descends from it, False iff not and `sup` exists,
+    KeyError iff not and `sup` does not exist. -/
+theorem C12_is_subclass_exact (s : State) (hr : Reachable s) (x : Cls) (hx : x ∈ s.classes) (sup : Name) :
+    ((ieq x.name sup = true ∨ Spec.Desc s.classes x.name sup) →
+        isSubclass (s.classes.length + 1) s.classes x.name sup = .ok true) ∧
+    (¬ (ieq x.name sup = true ∨ Spec.Desc s.classes x.name sup) → hasClass s.classes sup = true →
+        isSubclass (s.classes.length + 1) s.classes x.name sup = .ok false) ∧
+    (¬ (ieq x.name sup = true ∨ Spec.Desc s.classes x.name sup) → hasClass s.classes sup = false →
+        isSubclass (s.classes.length + 1) s.classes x.name sup = .error .keyError) :=
+  isSubclass_exact (reachable_forest hr) (reachable_norm hr) hx sup
+
+example : isSubclass 4 wState.classes ['S','U','B'] ['b','a','s','e'] = .ok true ∧
+    isSubclass 4 wState.classes ['b','a','s','e'] ['S','u','b'] = .ok false ∧
+    isSubclass 4 wState.classes ['S','u','b'] ['n','o'] = .error .keyError := by decide
+
+/-- **EnumerateClassNames() without ClassName**: DeepInheritance=False returns exactly the classes
+    without superclass, DeepInheritance=True exactly all stored classes (every reachable store) -/
+theorem C12_enumerate_all_exact (s : State) (hr : Reachable s) (x : Name) :
+    (x ∈ subNames s.classes none false ↔ ∃ c ∈ s.classes, c.name = x ∧ c.super = none) ∧
+    (x ∈ subNames s.classes none true ↔ ∃ c ∈ s.classes, c.name = x) :=
+  ⟨by simp only [subNames]; exact mem_children_none,
+   mem_subNames_all (reachable_forest hr) (reachable_norm hr)⟩
+
+example : subNames wState.classes none true = [['B','a','s','e'], ['O','t','h','e','r'], ['S','u','b']] ∧
+    subNames wState.classes none false = [['B','a','s','e'], ['O','t','h','e','r']] := by decide
+
+
+/-! ### extension round, theorem-only part -/
+
+/-- **A class exposes the properties and methods of ALL its ancestors** — for every history: in every
+    reachable store, if `c` descends from `a` then every property (method) `a` exposes is exposed by
+    `c` under the same name up to case (history invariant `ChildExposes`, lifted along `Spec.Desc`). -/
+theorem C12_exposes_all_ancestor_elements (s : State) (hr : Reachable s) (c a : Cls)
+    (hc : c ∈ s.classes) (ha : a ∈ s.classes) (hd : Spec.Desc s.classes c.name a.name) :
+    (∀ p ∈ a.props, hasElem c.props p.name = true) ∧ (∀ m ∈ a.meths, hasElem c.meths m.name = true) :=
+  ⟨exposes_ancestors (reachable_forest hr) (reachable_childExposes hr).1 hd c hc rfl a ha rfl,
+   exposes_ancestors (reachable_forest hr) (reachable_childExposes hr).2 hd c hc rfl a ha rfl⟩
+
+example : Spec.Desc wState.classes ['S','u','b'] ['B','a','s','e'] ∧
+    (wState.classes.map (fun c => (c.name, c.props.map (·.name)))) =
+      [(['B','a','s','e'], [['p'], ['q']]), (['S','u','b'], [['P'], ['r'], ['q']]), (['O','t','h','e','r'], [])] :=
+  ⟨(mem_subNames_deep (reachable_forest ⟨_, _, rfl⟩)).mp (by decide), by decide⟩
+
+/-- **Every qualifier of an overriding element is accounted for** (values and propagated flags of the
+    inherited ones included): each entry of the resolved dictionary either stems from the element's
+    own declaration (same key, value, type: `FromOwn`) or IS the overridden element's qualifier with
+    `propagated := True`, for a ToSubclass qualifier the element does not declare (`CopyOf`); nothing
+    else appears.  With `C12_overriding_element_quals_per_flavor` (keys) and
+    `C12_own_qualifier_value_wins` this fixes the dictionary up to the flavors of own entries. -/
+theorem C12_overriding_element_quals_accounted (decls : List QDecl) (own inh r : List Qual)
+    (hpo : List.Pairwise (fun a b => ieq a.name b.name = false) own)
+    (hpi : List.Pairwise (fun a b => ieq a.name b.name = false) inh)
+    (h : resolveQuals decls own inh true = .ok r) :
+    ∀ x ∈ r, FromOwn own x ∨ CopyOf own inh x :=
+  resolveQuals_form hpo hpi h
+
+example : okOr (resolveQuals [wOverride, wDesc] wSubP.quals wBase.quals true) [] =
+    [{ name := ['o','v','e','r','r','i','d','e'], ty := 1, val := .str ['p'], propagated := some false,
+       tosub := some false, overr := some true },
+     { name := ['D','e','s','c'], ty := 1, val := .str ['b'], propagated := some true,
+       tosub := some true, overr := some true }] := by decide
+
+/-- **The enumerations list every class once**: on every reachable store
+    EnumerateClassNames(C, DeepInheritance=True/False) has no duplicates (with
+    `C12_enumerate_subtree_exact` / `C12_enumerate_children_exact`: the returned list IS the set of
+    descendants / children). -/
+theorem C12_enumerate_no_duplicates (s : State) (hr : Reachable s) (a : Name) (deep : Bool) :
+    (subNames s.classes (some a) deep).Nodup := by
+  have hf := reachable_forest hr
+  cases deep with
+  | true => simp only [subNames, if_true]; exact subNamesDeep_nodup hf _ a
+  | false =>
+    simp only [subNames, Bool.false_eq_true, if_false]
+    have := subNamesDeep_nodup hf 1 a
+    simp only [subNamesDeep] at this
+    exact (List.nodup_append.mp this).1
+
+example : subNames wState.classes (some ['b','A','s','e']) true = [['S','u','b']] := by decide
+
+/-! ### creation order, ModifyClass, dictionaries -/
+
+/-- **Creation order**: whichever of CreateClass / add_cimobjects / the MOF connection accepts a class,
+    its name was new (up to case), its superclass — if it names one — was already stored, and the
+    store grows by exactly one class carrying the submitted name and the (normalised) superclass;
+    instances and declarations are untouched. -/
+theorem C12_creation_requires_superclass (s s' : State) (c : Cls)
+    (h : createClass s c = .ok s' ∨ addClass s c = .ok s' ∨ mofCreateClass s c = .ok s') :
+    hasClass s.classes c.name = false ∧
+    (∀ sn, c.super = some sn → sn ≠ [] → hasClass s.classes sn = true) ∧
+    ∃ r, s'.classes = s.classes ++ [r] ∧ r.name = c.name ∧ r.super = normSuper c.super ∧
+      s'.insts = s.insts ∧ s'.decls = s.decls := by
+  have key : ∀ r, resolveClass s.decls s.classes c = .ok r → s' = { s with classes := s.classes ++ [r] } →
+      hasClass s.classes c.name = false → _ := fun r hr hs hfresh => by
+    obtain ⟨hn, hsup, hp⟩ := resolveClass_ok hr
+    exact (⟨hfresh, hp, r, by rw [hs], hn, hsup, by rw [hs], by rw [hs]⟩ :
+      hasClass s.classes c.name = false ∧
+      (∀ sn, c.super = some sn → sn ≠ [] → hasClass s.classes sn = true) ∧
+      ∃ r, s'.classes = s.classes ++ [r] ∧ r.name = c.name ∧ r.super = normSuper c.super ∧
+        s'.insts = s.insts ∧ s'.decls = s.decls)
+  rcases h with h | h | h
+  · obtain ⟨r, hr, hs, hf⟩ := createClass_ok h; exact key r hr hs hf
+  · obtain ⟨r, hr, hs, hf⟩ := addClass_ok h; exact key r hr hs hf
+  · obtain ⟨r, hr, hs, hf⟩ := createClass_ok (mofCreateClass_ok h); exact key r hr hs hf
+
+example : ∃ s', addClass wState { wPlain with name := ['N','e','w'], super := some ['o','T','H','E','R'], props := [] } = .ok s' :=
+  ⟨okOr (addClass wState { wPlain with name := ['N','e','w'], super := some ['o','T','H','E','R'], props := [] }) wState,
+   by decide⟩
+
+/-- a class whose name (in any case) is already stored is refused by CreateClass with ALREADY_EXISTS -/
+theorem C12_duplicate_class_refused (s : State) (c : Cls) (h : hasClass s.classes c.name = true) :
+    createClass s c = .error (.cimError CIM_ERR_ALREADY_EXISTS) := by
+  simp [createClass, h]
+
+/-- **ModifyClass keeps the hierarchy**: it is accepted only for an existing class without
+    subclasses and without instances, whose submitted superclass is the stored one up to case; the
+    store keeps its length and order, every other class is untouched, the class itself is replaced by
+    the newly resolved one (same name up to case), instances and declarations are untouched. -/
+theorem C12_modifyClass_keeps_hierarchy (s s' : State) (c : Cls) (h : modifyClass s c = .ok s') :
+    ∃ orig r, findClass s.classes c.name = some orig ∧ resolveClass s.decls s.classes c = .ok r ∧
+      r.name = c.name ∧ r.super = normSuper c.super ∧ SuperCompat orig.super r.super ∧
+      children s.classes (some c.name) = [] ∧ (∀ i ∈ s.insts, ieq i.cls c.name = false) ∧
+      s'.classes = s.classes.map (fun x => if ieq x.name c.name then r else x) ∧
+      s'.insts = s.insts ∧ s'.decls = s.decls := by
+  obtain ⟨orig, r, hfind, hr, hs, hleaf, hinst, hcompat⟩ := modifyClass_ok h
+  obtain ⟨hn, hsup, _⟩ := resolveClass_ok hr
+  refine ⟨orig, r, hfind, hr, hn, hsup, by rw [hsup]; exact hcompat, hleaf, hinst, ?_, by rw [hs], by rw [hs]⟩
+  rw [hs]; simp only [replaceClass, hn]
+
+def wS1 : State := (run { decls := [] } [.create wPlain]).1
+example : ∃ s', modifyClass wS1 { wPlain with name := ['b','A','S','E'], props := [wSubR] } = .ok s' ∧
+    s'.classes.map (fun c => (c.name, c.props.map (·.name))) = [(['b','A','S','E'], [['r']])] :=
+  ⟨okOr (modifyClass wS1 { wPlain with name := ['b','A','S','E'], props := [wSubR] }) wS1, by decide, by decide⟩
+
+/-- **The stores hold dictionaries** (the justification for modelling NocaseDicts as lists): for every
+    history whose submitted classes are proper dictionary structures (`OpKeys`: what CIMClass objects
+    are), every stored class has pairwise different (up to case) class-qualifier names, property
+    names, method names, and qualifier names on each property and method. -/
+theorem C12_store_keys_unique (decls : List QDecl) (ops : List Op) (hall : ∀ op ∈ ops, OpKeys op) :
+    ∀ c ∈ (run { decls := decls } ops).1.classes, ClsKeys c :=
+  storeKeys_run ops (by intro x hx; simp at hx) hall
+
+example : ∀ op ∈ wHistory, OpKeys op := by
+  intro op hop
+  simp only [wHistory, List.mem_cons, List.mem_nil_iff, or_false] at hop
+  rcases hop with rfl | rfl | rfl | rfl | rfl <;> simp only [OpKeys, ClsKeys, KeysQ, KeysE] <;> decide
+
+/-- **The qualifier dictionary of an overriding element, exactly** — the three qualifier theorems
+    with their key-uniqueness hypotheses discharged by `C12_store_keys_unique`: whenever a class `c`
+    (a proper dictionary structure) is resolved against ANY store reached by a history of proper
+    submissions, for every own element `d` overriding the stored element `sE` of a stored class `P`:
+    keys = own ++ not-redeclared ToSubclass ones; every own qualifier keeps its value and type; every
+    entry is own or the propagated copy of such an inherited qualifier. -/
+theorem C12_overriding_element_quals_exact (decls : List QDecl) (ops : List Op)
+    (hall : ∀ op ∈ ops, OpKeys op) (c : Cls) (hc : ClsKeys c) (d : Elem) (hd : d ∈ c.props ∨ d ∈ c.meths)
+    (P : Cls) (hP : P ∈ (run { decls := decls } ops).1.classes) (sE : Elem)
+    (hsE : sE ∈ P.props ∨ sE ∈ P.meths) (r : List Qual)
+    (h : resolveQuals (run { decls := decls } ops).1.decls d.quals sE.quals true = .ok r) :
+    r.map lname = d.quals.map lname ++ (Spec.inheritedQuals d.quals sE.quals).map lname ∧
+    (∀ q ∈ d.quals, Holds r q) ∧ (∀ x ∈ r, FromOwn d.quals x ∨ CopyOf d.quals sE.quals x) := by
+  have hPk := C12_store_keys_unique decls ops hall P hP
+  have hinh : KeysQ sE.quals := by
+    rcases hsE with h1 | h1
+    · exact hPk.2.1.2 sE h1
+    · exact hPk.2.2.2 sE h1
+  have hown : KeysQ d.quals := by
+    rcases hd with h1 | h1
+    · exact hc.2.1.2 d h1
+    · exact hc.2.2.2 d h1
+  exact ⟨resolveQuals_override_lnames hinh h, resolveQuals_own_wins hown h, resolveQuals_form hown hinh h⟩
+
 end C12
